@@ -21,6 +21,8 @@ PERSISTENT = {
     "current_scope_nx": "saved/restored in with_scope (checked by C07 R7.4)",
     "pass_idx": "the pass counter itself",
     "import_stack": "balanced push/pop around an import's emission (the pop is not skipped by an error: checked by C06 R6.9)",
+    "macro_depth": "balanced increment/decrement around a macro's expansion (the decrement is not skipped by an error: checked by C06 R6.11)",
+    "variable_definitions": "deliberately the previous pass's value of every variable definition: only compared with, to decide whether another pass is needed",
 }
 
 
@@ -239,10 +241,9 @@ def r23(ctx, fx, loop):
     user_breaks = [(b, c) for b, c in breaks if not b.get("exp")]
     k = "%s|success-exit" % loop.path
     ctx.inst(rid, k, sample={"breaks": len(user_breaks)})
-    if len(user_breaks) != 1:
-        ctx.fail_closed(rid, "expected exactly one user `break` in the pass loop, found %d" % len(user_breaks))
+    if not user_breaks:
+        ctx.fail_closed(rid, "no user `break` found in the pass loop")
         return
-    b, conds = user_breaks[0]
 
     def is_empty_of(c, what):
         c = lib.strip(c)
@@ -252,13 +253,19 @@ def r23(ctx, fx, loop):
         if what == "undefined":
             return r.get("k") == "field" and r["name"] == "undefined"
         return (r.get("ty") or "").endswith("errors::Diagnostics") or (lib.strip(r).get("aty") or "").endswith("errors::Diagnostics")
-    has_err = any(side == "then" and is_empty_of(c, "errors") for side, c in conds)
-    has_und = any(side == "then" and is_empty_of(c, "undefined") for side, c in conds)
-    if not has_err:
-        ctx.finding(rid, k + "|errors", "the successful exit of the pass loop is not guarded by `errors.is_empty()`", "%s:%s" % (loop.file, b.get("ln")))
-    if not has_und:
-        ctx.finding(rid, k + "|undefined", "the successful exit of the pass loop is not guarded by `undefined.is_empty()`: the build can succeed while symbols "
-                    "changed in the last pass", "%s:%s" % (loop.file, b.get("ln")))
+    # every way out of the loop that is not an error return is a success exit and must be guarded by both
+    for i, (b, conds) in enumerate(user_breaks):
+        kk = k if i == 0 else "%s#%d" % (k, i + 1)
+        if i:
+            ctx.inst(rid, kk)
+        has_err = any(side == "then" and is_empty_of(c, "errors") for side, c in conds)
+        has_und = any(side == "then" and is_empty_of(c, "undefined") for side, c in conds)
+        if not has_err:
+            ctx.finding(rid, kk + "|errors", "a successful exit of the pass loop is not guarded by `errors.is_empty()`", "%s:%s" % (loop.file, b.get("ln")))
+        if not has_und:
+            ctx.finding(rid, kk + "|undefined", "a successful exit of the pass loop is not guarded by `undefined.is_empty()`: the build can succeed with the image "
+                        "of a pass in which symbols still changed (operands encode the values of the pass before)", "%s:%s" % (loop.file, b.get("ln")))
+    b = user_breaks[0][0]
     # emission precedes the break in the loop body (statement order)
     ctx.inst(rid, "%s|emit-before-exit" % loop.path)
     order = []
@@ -269,6 +276,52 @@ def r23(ctx, fx, loop):
             order.append("break")
     if order[:1] != ["emit"]:
         ctx.finding(rid, "%s|emit-before-exit" % loop.path, "the pass loop can exit successfully before emitting the main file in that iteration", loop.where)
+
+
+def r26(ctx, fx, loop):
+    rid = ctx.rule("R2.6", "repaired convergence defects stay repaired: `.align n` pads by (n − pc mod n) mod n (nothing at an aligned address); a definition that gives a "
+                   "variable another value than the same definition gave it in the previous pass asks for another pass; the pass loop never succeeds in its "
+                   "first pass (a name defined further on in its scope is unknown where it is used and binds to an enclosing scope's symbol)")
+    et = fx.fn(CC + "::emit_token")
+    ads = fx.fn(CC + "::add_symbol")
+    if et is None or ads is None or loop is None:
+        ctx.fail_closed(rid, "emit_token / add_symbol / pass loop not found")
+        return
+    k = "emit_token|Align|padding"
+    ctx.inst(rid, k)
+    pads = [n for n in lib.hwalk(et.hir["body"]) if n.get("k") == "let" and n["pat"].get("k") == "bind" and n["pat"].get("name") == "padding" and "init" in n]
+    if not pads:
+        ctx.fail_closed(rid, "the padding computation of `.align` was not found")
+    else:
+        d = lib.hdesc(pads[0]["init"])
+        rems = [t for t in lib.subterms(d) if isinstance(t, tuple) and t and t[0] == "Rem"]
+        # (align - pc % align) % align : an outer Rem whose left operand contains a Sub with an inner Rem
+        outer = [t for t in rems if any(isinstance(u, tuple) and u and u[0] == "Sub" for u in lib.subterms(t[1]))]
+        if not outer:
+            ctx.finding(rid, k, "`.align n` pads by n − (pc mod n), which is n — not 0 — at an address that is already aligned", "%s:%s" % (et.file, pads[0].get("ln")))
+    k = "add_symbol|variable-definitions"
+    ctx.inst(rid, k)
+    uses = any(x.get("k") == "field" and x.get("name") == "variable_definitions" for x in lib.hwalk(ads.hir["body"]))
+    cmp_ = any(n.get("k") == "binary" and n.get("op") in ("Ne", "Eq") and "variable_definitions" in repr(lib.hdesc(n)) for n in lib.hwalk(ads.hir["body"]))
+    if not (uses and cmp_):
+        ctx.finding(rid, k, "a variable never asks for another pass: `.var here = *` behind code that changes size leaves `jmp here` with the address of the pass before",
+                    ads.where)
+    k = "%s|at-least-two-passes" % loop.path
+    ctx.inst(rid, k)
+    ok = False
+    for n in lib.hwalk(loop.hir["body"]):
+        if n.get("k") == "if":
+            c = lib.hdesc(n["cond"])
+            # `pass_idx > 0` (any spelling: 0 < pass_idx, pass_idx != 0, pass_idx >= 1) directly guarding a break
+            first_pass_excluded = isinstance(c, tuple) and "pass_idx" in repr(c) and (
+                (c[0] in ("Lt", "Ne") and ("c", 0) in c[1:]) or (c[0] == "Le" and ("c", 1) in c[1:]))
+            direct_break = any(x.get("k") == "semi" and lib.strip(x["e"]).get("k") == "break" or x.get("k") == "break"
+                               for x in (n["then"].get("stmts") or []) + ([n["then"].get("expr")] if n["then"].get("expr") else []))
+            if first_pass_excluded and direct_break:
+                ok = True
+    if not ok:
+        ctx.finding(rid, k, "the pass loop can succeed in its very first pass: with a segment defined in the source a reference to a name that is defined further on in "
+                    "its scope stays bound to the enclosing scope's symbol of the same name", loop.where)
 
 
 def r24(ctx, fx):
@@ -437,4 +490,5 @@ def run(ctx):
     r23(ctx, fx, loop)
     r24(ctx, fx)
     r25(ctx, fx)
-    ctx.not_decided("convergence for a given program; scoped lookup on concrete symbol graphs; `.align` arithmetic; emission order of statement bytes")
+    r26(ctx, fx, loop)
+    ctx.not_decided("convergence for a given program; scoped lookup on concrete symbol graphs; emission order of statement bytes")
